@@ -99,7 +99,8 @@ def neighbors_template(model, R, rule):
     ys_all = [n for n in walk(loop.body) if isinstance(n, ast.Yield)]
     upd_all = [s for s in stmts(loop.body) if (isinstance(s, ast.AugAssign) and name_is(s.target, mvar)) or (isinstance(s, ast.Assign) and name_is(s.targets[0], mvar))]
     if not ys_all:
-        R.bad(rule, func, loop, 'neighbors: accepted candidate yielded as (extent, intent)', 'yield extent, intent on accept', 'nothing is yielded')
+        from .common import absent
+        absent(model, R, rule, func, loop, 'neighbors: accepted candidate yielded as (extent, intent)', 'yield extent, intent on accept', 'nothing is yielded')
         return
     if len(ys_all) != 1:
         raise Unrecognised(f'{len(ys_all)} yields in the candidate loop', func=func, node=loop)
@@ -127,7 +128,8 @@ def neighbors_template(model, R, rule):
         R.unknown(rule, func, test, 'neighbors: accept test', str(e))
     # N5: on reject min := min & ~g
     if not upd_all:
-        R.bad(rule, func, loop, 'neighbors: rejected candidate leaves the minimal set', f'{mvar} &= ~add', 'no update on reject')
+        from .common import absent
+        absent(model, R, rule, func, loop, 'neighbors: rejected candidate leaves the minimal set', f'{mvar} &= ~add', 'no update on reject')
     elif len(upd_all) != 1:
         raise Unrecognised('several updates of the minimal set', func=func, node=loop)
     else:
